@@ -73,7 +73,7 @@ class Ctx:
                 knowns.append((v, open_keys[kk]))
             else:
                 unexplained.append(v)
-        evdir = os.path.join(VERIF, "evidence")
+        evdir = os.environ.get("VERIF_EVIDENCE_DIR") or os.path.join(VERIF, "evidence")
         os.makedirs(os.path.join(evdir, "violations"), exist_ok=True)
         # clear old replay files of this property
         for f in os.listdir(os.path.join(evdir, "violations")):
